@@ -7,6 +7,13 @@ import Proofs.GenTables
 #print axioms Xsel.C08.xsel_accepts_xpath
 #print axioms Xsel.C08.xsel_accepts_only_xpath
 #print axioms Xsel.C08.xsel_language_exact
+#print axioms Xsel.C08.model_parser_in_grammar
+#print axioms Xsel.C08.parse_render_model
+#print axioms Xsel.C08.parse_render_spec
+#print axioms Xsel.C08.doubles_spellable
+#print axioms Xsel.C08.lexer_inverts_spelling
+#print axioms Xsel.C08.lexer_any_whitespace
+#print axioms Xsel.C08.lexer_without_whitespace
 #print axioms Xsel.Gen.handlers_agree
 #print axioms Xsel.Gen.productions_agree
 #print axioms Xsel.Gen.no_dropped_symbol
